@@ -193,13 +193,15 @@ package participle
 // parse context. Its own obligations are under "conform"/"setField" below.
 //@ func setField
 //@   trusted
+//@   ensures result != nil ==> implements(result, Error)
 
 // Apply(from): applies exactly the captures deferred since the list held `from` entries, in order, and drops
 // them; earlier entries (deferred by enclosing productions) are kept untouched.
 //@ func (*parseContext).Apply [C02 C17 C01]
 //@   requires 0 <= from && from <= len(p.apply) && forall(k, from, len(p.apply), p.apply[k] != nil)
 //@   modifies p.apply
-//@   ensures len(p.apply) == from && forall(k, 0, from, p.apply[k] == old(p.apply[k])) && &p.apply[0] == &old(p.apply)[0]
+//@   ensures len(p.apply) == from && forall(k, 0, from, p.apply[k] == old(p.apply[k])) && &p.apply[0] == &old(p.apply)[0] && cap(p.apply) == cap(old(p.apply))
+//@   ensures result != nil ==> implements(result, Error)
 //@   loop 1 invariant -1 <= rangeindex && rangeindex < len(pending) && len(p.apply) == from && &p.apply[0] == &old(p.apply)[0] && pending == old(p.apply)[from:]
 //@   loop 1 decreases len(pending) - rangeindex
 //@   before call participle.setField#1: assert apply == old(p.apply)[from + rangeindex + 1] [C02 C01]
@@ -234,3 +236,40 @@ package participle
 //@   loop 1 invariant firstError == nil || implements(firstError, Error) || uf("user_error", "Bool", firstError)
 //@   loop 1 decreases len(d.nodes) - rangeindex
 //@   ensures err == nil && out == nil ==> ctx.PeekingLexer == old(ctx.PeekingLexer) && ctx.apply == old(ctx.apply)
+
+// Groups: ( e ), ( e )?, ( e )*, ( e )+, ( e )!. Iterations run on fresh branches that are adopted when they
+// succeed; a failing iteration ends the repetition unless Stop commits to it.
+//@ func (*group).Parse [C01 C02 C06 C13]
+//@   implements node.Parse
+//@   use wfGroup(g) at entry
+//@   loop 1 invariant 0 <= matches && g.expr != nil && wf(g.expr)
+//@   loop 1 invariant ctx.tokens == old(ctx.tokens) && ctx.elide == old(ctx.elide)
+//@   loop 1 invariant pcInv(ctx) && ctx.rawCursor >= old(ctx.rawCursor) && ctx.cursor >= old(ctx.cursor)
+//@   loop 1 invariant (ctx.apply == old(ctx.apply) || fresh(ctx.apply)) && len(ctx.apply) >= len(old(ctx.apply))
+//@   loop 1 invariant forall(k, 0, len(old(ctx.apply)), ctx.apply[k] == old(ctx.apply[k]))
+//@   loop 1 invariant forall(k, len(old(ctx.apply)), len(ctx.apply), ctx.apply[k] != nil && ctx.apply[k].strct == parent)
+//@   loop 1 invariant len(out) == 0 ==> ctx.Checkpoint == old(ctx.Checkpoint) && len(ctx.apply) == len(old(ctx.apply))
+//@   loop 1 decreases max - matches
+
+// A sub-production "@@": a fresh struct; Pos/EndPos/Tokens describe exactly the tokens it consumed (C11);
+// it applies exactly the captures deferred during its own parse and leaves the enclosing ones deferred (C02).
+//@ lemma wfUnion(u *union)
+//@   axiom
+//@   requires wf(iface(u))
+//@   ensures wf(iface(&u.disjunction))
+//@ func (*strct).Parse [C11 C02 C01 C06 C17]
+//@   implements node.Parse
+//@   use wfStrct(s) at entry
+//@   ensures len(ctx.apply) == len(old(ctx.apply))
+//@   ensures out != nil ==> len(out) == 1
+//@   before call (*participle.strct).maybeInjectStartToken#1: assert token == &ctx.tokens[ctx.nextCursor] && ctx.rawCursor == old(ctx.rawCursor) [C11]
+//@   before call (*participle.strct).maybeInjectEndToken#1: assert token == &ctx.tokens[ctx.rawCursor] && ctx.rawCursor >= start [C11]
+//@   before call (*participle.strct).maybeInjectTokens#1: assert tokens == ctx.tokens[start:ctx.rawCursor] && start == old(ctx.rawCursor) [C11]
+//@   before call (*participle.parseContext).Apply#1: assert from == len(old(ctx.apply)) [C02]
+//@   before call (*participle.parseContext).Apply#2: assert from == len(old(ctx.apply)) [C02]
+
+//@ func (*union).Parse [C01 C02 C06]
+//@   implements node.Parse
+//@   use wfUnion(u) at entry
+//@   loop 1 invariant -1 <= rangeindex && rangeindex < len(vals)
+//@   loop 1 decreases len(vals) - rangeindex
